@@ -804,6 +804,9 @@ def evaluate__parse_json_functions(self: XPathFunction, context: ta.ContextType 
         if href and urlsplit(href).fragment:
             raise self.error('FOUT1170') from None
         raise self.error('FOJS0001') from None
+    except (ValueError, RecursionError) as err:
+        # a number with more digits than the int conversion limit, too many nested levels
+        raise self.error('FOJS0001', str(err)) from None
     else:
         return decode_value(result)
 
@@ -1416,7 +1419,9 @@ def evaluate__json_to_xml(self: XPathFunction, context: ta.ContextType = None) \
             result = json.JSONDecoder(**kwargs).decode(json_text[1:])
         else:
             result = json.JSONDecoder(**kwargs).decode(json_text)
-    except json.JSONDecodeError as err:
+    except (ValueError, RecursionError) as err:
+        # JSONDecodeError, a number with more digits than the int conversion
+        # limit, too many nested levels
         raise self.error('FOJS0001', str(err)) from None
 
     if is_etree_element(result):
